@@ -29,6 +29,59 @@ def tbcd_reference_vectors():
     assert c18.ref_decode("21f3") == "123"
 
 
+@test
+def reference_codec_vectors():
+    from vk.ref import refcodec
+    assert refcodec.selftest()
+
+
+@test
+def hist_engine_toy_model():
+    """BFS on a model with a known answer: a counter modulo 5 with +1 and +2 has 5 states and 10 transitions;
+    an invariant violated in state 4 must be reported once per incoming transition and state 4 not expanded."""
+    from vk import hist
+
+    class Toy:
+        def initial(self):
+            return [()]
+
+        def build(self, h):
+            return sum(h) % 5
+
+        def enabled(self, st):
+            return [1, 2]
+
+        def step(self, h, op):
+            st = (sum(h) + op) % 5
+            return st, ([("TOY:four", "state 4 reached")] if st == 4 else [])
+
+        def canon(self, st):
+            return st
+    rep = core.Report("TOY")
+    res = hist.bfs(Toy(), rep)
+    assert res["states"] == 4 and res["closed"], res          # 0,1,2,3 (4 is violating, not a state)
+    assert res["transitions"] == 8 and res["violating_transitions"] == 2, res
+    assert rep.violations["TOY:four"].count == 2
+    rep2 = core.Report("TOY")
+    res2 = hist.bfs_parallel(Toy(), rep2, 2)
+    assert (res2["states"], res2["transitions"], res2["violating_transitions"]) == (4, 8, 2), res2
+
+
+@test
+def step_counter_bounds_library_code():
+    from vk import steps
+    from vk.ref import refcodec
+    from bromelia.base import DiameterMessage
+    msg = refcodec.enc_msg((1, 0x80, 280, 0, 1, 2, [(264, 0x40, None, b"h"), (296, 0x40, None, b"r")]))
+    steps.run_bounded(lambda: DiameterMessage.load(msg), 10 ** 7)       # warm-up (the class table is built once)
+    out, val, n = steps.run_bounded(lambda: DiameterMessage.load(msg), 10 ** 7)
+    assert out == "return" and 1000 < n < 200000, (out, n)
+    out, val, n2 = steps.run_bounded(lambda: DiameterMessage.load(msg), 50)
+    assert out == "steplimit", out
+    out, val, n3 = steps.run_bounded(lambda: DiameterMessage.load(msg), 10 ** 7)
+    assert out == "return" and n3 == n, (n, n3)              # deterministic count
+
+
 def main():
     failed = 0
     for t in TESTS:
